@@ -9,6 +9,7 @@ import (
 	"io"
 	"os"
 	"regexp"
+	"runtime"
 	"runtime/debug"
 	"sort"
 	"strconv"
@@ -153,11 +154,39 @@ func Main(t *testing.T, engine string, props []string, fn func(r *R)) {
 			if _, isStop := p.(stopRun); isStop {
 				return
 			}
-			r.finish(&violation{Oracle: "sut_panic", Msg: hexAddr.ReplaceAllString(fmt.Sprintf("%v", p), "0x?") + "\n" + trimStack(debug.Stack())}, "")
+			msg := hexAddr.ReplaceAllString(fmt.Sprintf("%v", p), "0x?") + "\n" + trimStack(debug.Stack())
+			if panicInHarness() {
+				// a bug in the harness itself is infrastructure trouble (exit 2), never a violation
+				r.finish(nil, "panic in harness code: "+msg)
+				return
+			}
+			r.finish(&violation{Oracle: "sut_panic", Msg: msg}, "")
 		}
 	}()
 	fn(r)
 	r.finish(nil, "")
+}
+
+// panicInHarness reports, from a deferred function that recovered a panic, whether the panicking frame (the first
+// non-runtime frame below runtime.gopanic) belongs to harness code (module verifsim) rather than to the system
+// under test.
+func panicInHarness() bool {
+	pcs := make([]uintptr, 64)
+	n := runtime.Callers(0, pcs)
+	frames := runtime.CallersFrames(pcs[:n])
+	seenPanic := false
+	for {
+		f, more := frames.Next()
+		if seenPanic && !strings.HasPrefix(f.Function, "runtime.") {
+			return strings.HasPrefix(f.Function, "verifsim/")
+		}
+		if f.Function == "runtime.gopanic" {
+			seenPanic = true
+		}
+		if !more {
+			return false
+		}
+	}
 }
 
 var hexAddr = regexp.MustCompile(`0x[0-9a-f]+`)
